@@ -610,4 +610,54 @@ global
   at sql.(*Conn).QueryRowContext#any assert [C14.sql] allowedSQL($arg1)
   at sql.(*Conn).QueryContext#any assert [C14.sql] allowedSQL($arg1)
   at sql.(*Tx).Commit#any assert [C14.rollback] !tx_lockrow[$recv]
+
+// ---------------------------------------------------------------------------
+// C04: continuity evidence. Ghosts record the evidence verify() looked at.
+ghost v_off Int
+ghost v_s1 Int
+ghost v_s2 Int
+ghost v_wsize Int
+ghost v_lpm Bool
+ghost v_lpmCalled Bool
+ghost v_detected Bool
+ghost v_detCalled Bool
+ghost v_belief Bool
+
+// No continuity belief survives Close: the in-memory sync state is reset and the read transaction dropped
+// at the point where Close publishes the closed state (under db.mu).
+func litestream.(*DB).Close(db, ctx) (err)
+  requires db != nil
+  modifies $heap, $alloc, it_idx, l0_has, file_closed, file_written, path_synced, path_handle, pub_dst, pub_renamed, enc_pages, enc_last, pm_commitOff, pm_lastCommit, sync_off, sync_sz, sync_hdr, c05_writeErr, c05_upErr, c05_dpos, c05_uploaded, c05_lockErr, tx_lockrow
+  at sync.(*RWMutex).Unlock#1 assert [C04.beliefs] !db.syncState.syncedToWALEnd && db.syncState.lastSyncedWALOffset == 0 && !db.syncState.syncedSinceCheckpoint && !db.syncState.truncatePassiveFailed && db.rtx == nil && db.db == nil && !db.opened
+
+// verify(): an incremental continuation (snapshotting == false) is chosen only on one of three kinds of evidence.
+func litestream.(*DB).verifyWithExecutor(db, ctx, exec) (info, err)
+  requires db != nil && exec != nil && !v_lpmCalled && !v_detCalled
+  assumes 1 <= db.pageSize && db.pageSize <= 65536     // A-pagesize
+  modifies $heap, $alloc, file_closed, v_off, v_s1, v_s2, v_wsize, v_lpm, v_lpmCalled, v_detected, v_detCalled, v_belief
+  at os.Stat#1 set v_off = info.offset
+  at os.Stat#1 set v_s1 = info.salt1
+  at os.Stat#1 set v_s2 = info.salt2
+  at os.Stat#1 set v_belief = exec.state.syncedToWALEnd
+  at fs.FileInfo.Size#1 set v_wsize = $result0
+  at litestream.(*DB).lastPageMatch#1 assert [C04.lpm-args] v_off >= 0 ==> $arg2 == v_off - (db.pageSize + 24) && $arg3 == db.pageSize + 24 && v_off - (db.pageSize + 24) > 32
+  at litestream.(*DB).lastPageMatch#1 set v_lpm = $result0
+  at litestream.(*DB).lastPageMatch#1 set v_lpmCalled = true
+  at litestream.(*DB).detectFullCheckpoint#1 set v_detected = $result0
+  at litestream.(*DB).detectFullCheckpoint#1 set v_detCalled = true
+  ensures [C04.first-sync] err == nil && old(exec.pos.TXID) == 0 ==> info.snapshotting && info.offset == 32
+  ensures [C04.evidence-own-checkpoint] err == nil && !info.snapshotting && old(exec.pos.TXID) != 0 && v_off > v_wsize ==> v_belief && info.offset == 32 && info.clearSyncedToWALEnd
+  ensures [C04.evidence-same-generation] err == nil && !info.snapshotting && old(exec.pos.TXID) != 0 && v_off <= v_wsize && info.salt1 == v_s1 && info.salt2 == v_s2 && info.offset != 32 ==> info.offset == v_off && (v_off - (db.pageSize + 24) == 32 || (v_lpmCalled && v_lpm))
+  ensures [C04.evidence-restart] err == nil && !info.snapshotting && old(exec.pos.TXID) != 0 && v_off <= v_wsize && (info.salt1 != v_s1 || info.salt2 != v_s2) ==> info.offset == 32 && v_lpmCalled && v_lpm && v_detCalled && !v_detected
+  ensures [C04.resume-offset] err == nil && !info.snapshotting ==> info.offset == 32 || info.offset == v_off
+  ensures [C04.evidence-restart-single] err == nil && !info.snapshotting && old(exec.pos.TXID) != 0 && v_off <= v_wsize && (info.salt1 != v_s1 || info.salt2 != v_s2) ==> info.salt1 == v_s1 + 1
+
+func litestream.(*DB).lastPageMatch(db, ctx, dec, prevWALOffset, frameSize) (match, err)
+  requires dec != nil
+  modifies $heap, $alloc, file_closed
+  ensures [C04.lpm-salt] err == nil && match ==> prevWALOffset > 32 && fsalt1 == dec.header.WALSalt1 && fsalt2 == dec.header.WALSalt2
+
+func litestream.(*DB).detectFullCheckpoint(db, ctx, knownSalts) (detected, err)
+  modifies $heap, $alloc, file_closed
+  ensures [C04.detect] err == nil ==> (detected <==> len(m) >= 1)
 */
